@@ -109,6 +109,15 @@ def run_ka(res: Result, seed: int) -> None:
             which = rng.choice([0, 1, 2, 3])                 # which start-up query the boundaries are aimed at
             offs = [0.0, 1000.0, 5000.0, 14000.0][which]
             # records whose half-life instants are spread 1 ms apart over the window in which that query can fall
+            # sometimes a second browsed type with its own cached pointers: the known answers of several questions are packed into
+            # buckets, each question must still be asked once per query and carry exactly its own known answers
+            two_types = rng.random() < 0.35
+            desc["two_types"] = two_types
+            if two_types:
+                for j in range(rng.choice([3, 40, 90])):
+                    ident2 = ("PTR", T_OTHER, ("other%03d.%s" % (j, T_OTHER),))
+                    sim.net.inject(host, R.build_response([(ident2, ttl * 3, False)], id_=7000 + j), ("10.0.0.9", 5353), delay_ms=float(j % 100))
+                    cached.append(Cached(ident2, base + float(j % 100), ttl * 3))
             for j in range(n):
                 kind = rng.random()
                 if kind < 0.6:
@@ -130,7 +139,7 @@ def run_ka(res: Result, seed: int) -> None:
             await sim.sleep_until_ms(B)
             out["B"] = sim.now_ms()
             out["mark"] = len(sim.net.trace)
-            browser = AsyncServiceBrowser(zc, T, listener=L(), delay=10000)
+            browser = AsyncServiceBrowser(zc, [T, T_OTHER] if two_types else T, listener=L(), delay=10000)
             await sim.sleep_ms(15000)
             await browser.async_cancel()
             await azc.async_close()
@@ -184,12 +193,21 @@ def run_ka(res: Result, seed: int) -> None:
                     viol("c13.known_answers", "known_answer_ttl", "query %d: %r carries ttl %d, remaining is %d" % (bi + 1, bad[0][0], bad[0][1], bad[0][2]))
             if dup:
                 viol("c13.known_answers", "known_answer_repeated", "query %d lists a known answer twice" % (bi + 1))
-            for k, m in enumerate(msgs):
-                want_tc = k < len(msgs) - 1
-                if m.tc != want_tc:
-                    viol("c13.known_answers", "tc_flag", "query %d packet %d/%d TC=%s" % (bi + 1, k + 1, len(msgs), m.tc))
-                if len(m.questions) and k > 0:
-                    viol("c13.known_answers", "question_repeated_in_continuation", "continuation packet repeats the question")
+            asked = [(q.name.text().lower(), q.type) for m in msgs for q in m.questions]
+            if len(asked) != len(set(asked)):
+                viol("c13.known_answers", "question_asked_twice_in_one_query", "query %d asks %r" % (bi + 1, sorted(asked)[:4]))
+            if not desc.get("two_types"):
+                for k, m in enumerate(msgs):
+                    want_tc = k < len(msgs) - 1
+                    if m.tc != want_tc:
+                        viol("c13.known_answers", "tc_flag", "query %d packet %d/%d TC=%s" % (bi + 1, k + 1, len(msgs), m.tc))
+                    if len(m.questions) and k > 0:
+                        viol("c13.known_answers", "question_repeated_in_continuation", "continuation packet repeats the question")
+            else:
+                # several questions: they may be spread over the packets; every packet but the last of the batch carries TC
+                if set(asked) != {(T.lower(), 12), (T_OTHER.lower(), 12)}:
+                    viol("c13.known_answers", "question_missing", "query %d of a browser of two types asks %r" % (bi + 1, sorted(asked)))
+                # a known answer must travel with (or after) its own question's type: judged as a set per owner name below
             boundary_hits = sum(1 for c in cached if abs((c.created + 500.0 * c.ttl) - t) <= 1.0)
             res.cls("ka", "n=%d" % n, "packets=%d" % min(len(msgs), 4), "q%d" % (bi + 1), "boundary" if boundary_hits else "-", "known=%d" % min(len(want), 3))
         if len(batches) < 4:
